@@ -299,8 +299,9 @@ PROPS = {
                   'and inspect()/inspect_v() of src/inspect.rs: the text Debug/v_print write is a function of the abstract '
                   'graph (one line per present vertex in ascending id order with its id, one attribute per edge with label '
                   'and target, its data iff it has data; v_print: id, data marker iff data, exactly the labels); inspect_v() '
-                  'terminates on every graph (measure: ids not yet seen) and returns one line per edge of every vertex it '
-                  'expands, each at most once; format!/join/Formatter/HashSet by trusted contracts',
+                  'terminates on every graph (measure: ids not yet seen) and inspect(v) returns one line per edge of every '
+                  'vertex reachable from v, each vertex expanded once (closure + soundness of the seen-set, lemma "closed '
+                  'and sound = reachable"); format!/join/Formatter/HashSet by trusted contracts',
         level_text='Unbounded proof on the extracted real Debug::fmt (T11: emitted as an inherent method, the graph invariant '
                    'is its precondition), Display::fmt (T11 too; what '
                    'std\'s `impl Debug for &T` forwards to is a trusted contract) and v_print(): when Debug::fmt returns Ok, '
@@ -311,18 +312,22 @@ PROPS = {
                    'returns format!(literal, v, marker-iff-data, join(labels, ", ")) with exactly v\'s labels in stored order. '
                    'inspect_v(v, seen) (T12: its two `for_each` statements, whose closures capture `&mut seen` / `&mut lines`, '
                    'become loops): the recursion terminates on EVERY graph, cyclic or not (decreases: capacity minus the '
-                   'number of ids seen; `seen` only grows and holds ids below the capacity), returns Ok, and the number of '
-                   'lines it returns is the number of edges of the vertices it expanded - v and every id it newly put into '
-                   '`seen` - i.e. every edge of an expanded vertex is listed exactly once and no vertex is expanded twice. '
-                   'Every loop terminates.',
-        level_note='PARTIAL in two respects. (1) inspect(): that the expanded vertices are exactly those reachable from v is '
-                   'not drawn (soundness and closure of `seen` under edges are not part of the contract yet), nor the text of '
-                   'each line; (2) the characters of every output (format! is an uninterpreted function of its literal and of '
-                   'the Display texts of its arguments, T9; format!("{}", x) is the Display text of x). Trusted: Verus/Z3; '
+                   'number of ids seen, the vertex in work included; `seen` only grows and holds ids below the capacity; the '
+                   'walk descends only into a target that had not been seen), returns Ok, the number of lines it returns is '
+                   'the number of edges of the vertices it expanded - v and every id it newly put into `seen` - every target '
+                   'of an expanded vertex ends up in `seen`, and everything in `seen` was there before or is reachable from '
+                   'v. For inspect(v), which starts from the empty set, the lemma "a set that holds v, is closed under edges '
+                   'and holds only ids reachable from v is the set reachable from v" gives the statement: the text is '
+                   'format!(literal, v, join(lines, "\\n")) with exactly as many lines as the vertices reachable from v '
+                   'have edges - each such vertex expanded once, each of its edges listed once. Every loop terminates.',
+        level_note='NOT decided: what each line of inspect() says (only their number, and the header); the group lines of '
+                   'Debug; the characters of every output (format! is an uninterpreted function of its literal and of the '
+                   'Display texts of its arguments, T9; format!("{}", x) is the Display text of x). Trusted: Verus/Z3; '
                    '<[String]>::join as an uninterpreted function of parts and separator, Formatter::write_str appends, '
                    'Display of Hex is print() (proved a function of the bytes in U_hex), std `impl Debug for &T` forwards to T, '
-                   'std HashSet<usize> (insert/contains over a ghost set), itertools sorted() on the edge iterator (a '
-                   'permutation in key order).',
+                   'std HashSet<usize> (new/insert/contains over a ghost set), itertools sorted() on the edge iterator (a '
+                   'permutation in key order). Edge targets below the capacity and no edge from a vertex to itself are '
+                   'preconditions (invariants of every history built through the documented API: lemmas L13).',
         design_ref='DESIGN.md §4 C20',
         trusted_base=GRAPH_TRUSTED + [
             'std `map(f).collect::<Vec<_>>()` on micromap::Iter / microstack::IntoIter (inherent shim methods: f(item) for every '
@@ -340,9 +345,11 @@ PROPS = {
                     '(one-line-per-present-vertex-in-id-order, vertex-line-carries-id-edges-and-data, group-lines-come-after, '
                     'termination of both loops), display-writes-what-debug-writes, '
                     'v_print-shows-the-marker-iff-data-and-exactly-the-labels; inspect-terminates-on-any-graph, '
-                    'inspect-one-line-per-edge-of-every-vertex-expanded-once, inspect-vertex-is-marked-seen-before-its-edges-'
-                    'are-walked, inspect-edge-loop, inspect-copy-loop; lemmas L20-*.',
-        not_covered=['inspect(): that the vertices expanded are exactly the ones reachable from v; the text of each line',
+                    'inspect-nested-call-only-for-a-target-not-seen-before, inspect-one-line-per-edge-of-every-vertex-expanded-once, '
+                    'inspect-expands-every-target-and-only-reachable-vertices, inspect-vertex-is-marked-seen-before-its-edges-'
+                    'are-walked, inspect-lists-every-edge-of-every-reachable-vertex-once, inspect-edge-loop, inspect-copy-loop; '
+                    'lemmas L20-* (incl. L20-expanded-set-is-exactly-the-reachable-set).',
+        not_covered=['inspect(): the text of each line (which edge a line is for); only the number of lines and the header are decided',
                      'the group lines (b..: {..}) of Debug: only that they come after the vertex lines',
                      'the characters of the output (what format! does with its literal)'],
         assumptions=['the graph is well-formed (wf); v_print / inspect: v below the capacity; inspect: edge targets are ids '
